@@ -1,15 +1,22 @@
 ------------------------ MODULE Trace_ErrorAlgebra ------------------------
-(* Trace validation for C18: every line is one merge evaluated by the real
-   goa.MergeErrors on a (random, 5-8 leaf) tree; the specification recomputes
-   the observable from the logged leaves and tree and must agree. *)
+(* Trace validation for C18.  A "case" line is one merge evaluated by the real goa.MergeErrors on a
+   (random, 5-8 leaf) tree whose leaves also vary in what they wrap; the result is observed directly and on
+   the wire (http.NewErrorResponse / StatusCode, grpc.EncodeError -> DecodeError -> NewServiceError).
+   A "status" line is one error alone (kind x name x flags x cause) observed on the wire.  The
+   specification recomputes the observable from the logged case and must agree.
+
+   A line the design rejects but one of TraceDeviations (deviations recorded as known findings) predicts
+   exactly is matched under that deviation and printed as <<"DEV", line, deviation>>: the check files it
+   under the deviation's name (a KNOWN-FINDING if listed, a VIOLATION otherwise) - it is never silent. *)
 EXTENDS ErrorAlgebra, Json
 TraceLog == ndJsonDeserialize("trace.ndjson")
+TraceDeviations == {"grpc.detail_after_inherited"}
 VARIABLE l
 tvars == <<vars, l>>
 
 TraceInit == /\ TLCSet(1, 1) /\ l = 1
              /\ mode = "merge" /\ leaves = <<NilLeaf>> /\ tree = <<"leaf", 1>>
-             /\ scase = [kind |-> "svc", name |-> "n1", flags |-> NoFlags]
+             /\ scase = NoCase
              /\ pc = "start" /\ obs = [kind |-> "none"]
 
 \* JSON omits empty/absent fields: rebuild the record the spec compares with
@@ -19,16 +26,31 @@ Norm(o) ==
         msgs |-> IF "msgs" \in DOMAIN o THEN o.msgs ELSE <<>>,
         flags |-> o.flags,
         causes |-> IF "causes" \in DOMAIN o THEN o.causes ELSE <<>>,
-        hist |-> IF "hist" \in DOMAIN o THEN o.hist ELSE <<>>]
+        hist |-> IF "hist" \in DOMAIN o THEN o.hist ELSE <<>>,
+        wire |-> o.wire]
   ELSE o
 
+\* the implementation's answer o is the specification's: pred(D) is the prediction under deviations D
+Agrees(pred(_), o) ==
+  \/ pred(Deviations) = o
+  \/ /\ pred(Deviations) # o
+     /\ \E d \in TraceDeviations : pred({d}) = o /\ PrintT(<<"DEV", l, d>>)
+
 TCase == /\ l <= Len(TraceLog) /\ TraceLog[l].ev = "case"
-         /\ LET e == TraceLog[l] IN
+         /\ LET e == TraceLog[l]
+                P(D) == ObsD(D, e.leaves, e.tree) IN
             /\ leaves' = e.leaves /\ tree' = e.tree
-            /\ obs' = Obs(e.leaves, e.tree)
-            /\ obs' = Norm(e.obs)                     \* the implementation's answer is the specification's
-         /\ l' = l + 1 /\ pc' = "done" /\ UNCHANGED <<mode, scase>>
-TraceNext == TCase
+            /\ obs' = Norm(e.obs)
+            /\ Agrees(P, obs')
+         /\ l' = l + 1 /\ pc' = "done" /\ mode' = "merge" /\ UNCHANGED scase
+TStatus == /\ l <= Len(TraceLog) /\ TraceLog[l].ev = "status"
+           /\ LET e == TraceLog[l]
+                  P(D) == StatusObsD(D, e.scase) IN
+              /\ scase' = e.scase
+              /\ obs' = e.obs
+              /\ Agrees(P, obs')
+           /\ l' = l + 1 /\ pc' = "done" /\ mode' = "status" /\ UNCHANGED <<leaves, tree>>
+TraceNext == TCase \/ TStatus
 TraceSpec == TraceInit /\ [][TraceNext]_tvars
 HWM == IF l > TLCGet(1) THEN TLCSet(1, l) ELSE TRUE
 TraceAccepted == PrintT(<<"HWM", TLCGet(1)>>) /\ TLCGet(1) = Len(TraceLog) + 1
